@@ -3,6 +3,7 @@ package main
 // Scenarios added after the seeded-change campaign (section 11 of DESIGN.md): each targets a window the first suites did not reach.
 
 import (
+	"encoding/hex"
 	"fmt"
 	"runtime"
 	"strings"
@@ -13,6 +14,7 @@ import (
 	control "github.com/longportapp/openapi-protobufs/gen/go/control"
 	protocol "github.com/longportapp/openapi-protocol/go"
 	"github.com/longportapp/openapi-protocol/go/verifhook"
+	pb "google.golang.org/protobuf/proto"
 )
 
 func init() {
@@ -341,7 +343,7 @@ func maxInt(a, b int) int {
 func init() {
 	// C05/C19: bursts of callers released into Do's id draw at the same instant (spin gate just before NewRequest): with an id
 	// generator that is one atomic operation no two calls of a connection share an id and every call gets its own answer
-	register(&scenario{Name: "c05/simultaneous-callers", Props: []string{"C05", "C19"}, Quick: true, Transports: []string{"tcp"}, TimeoutU: 600, Run: func(t *T) {
+	register(&scenario{Name: "c05/simultaneous-callers", Props: []string{"C05", "C19", "C07"}, Quick: true, Transports: []string{"tcp"}, TimeoutU: 600, Run: func(t *T) {
 		p := newPeer(t, t.Transport, t.Version)
 		defer p.Shutdown()
 		var mu sync.Mutex
@@ -387,6 +389,9 @@ func init() {
 			verifhook.WaitParked("client.Do:conn-picked", burst, t.U(20))
 			verifhook.ReleaseSpin("client.Do:conn-picked")
 			wg.Wait()
+			if atomic.LoadInt32(&failed)+atomic.LoadInt32(&misrouted) > 0 {
+				break // one bad round is the verdict; further rounds would only wait for more deadlines
+			}
 		}
 		mu.Lock()
 		dup := 0
@@ -399,6 +404,8 @@ func init() {
 		t.Check("do_returns_own_id", misrouted == 0, "%d of %d calls released into the id draw at the same instant returned another call's response", misrouted, rounds*burst)
 		t.Check("do_returns_own_id", dup == 0, "%d request ids were used by two calls on one connection", dup)
 		t.Check("do_returns", failed == 0, "%d of %d answered calls failed", failed, rounds*burst)
+		// C07: every one of these calls was answered at once, long before its deadline
+		t.Check("no_lost_wakeup", failed == 0 && misrouted == 0, "%d of %d calls whose response arrived well before the deadline failed, %d returned a response that was not theirs (callers released into Do at the same instant)", failed, rounds*burst, misrouted)
 	}})
 }
 
@@ -498,4 +505,342 @@ func init() {
 			t.Check("loss_accounting", t.Warns("drop") == 0, "%d packets dropped although the receive queue (1024) is larger than everything sent", t.Warns("drop"))
 		}})
 	}
+}
+
+func init() {
+	// C16: a peer that is unresponsive but not dead (socket open, reads nothing, answers nothing). The connection is given up by Close, or
+	// by a keepalive-triggered recovery followed by Close; its socket and goroutines must be released without any help from the peer
+	// (observed in the kernel's socket table, because the scripted peer is not reading)
+	for _, viaKeepalive := range []bool{false, true} {
+		viaKeepalive := viaKeepalive
+		name := "c16/unresponsive-peer-close"
+		if viaKeepalive {
+			name = "c16/unresponsive-peer-keepalive-recycle"
+		}
+		register(&scenario{Name: name, Props: []string{"C16", "C14"}, Quick: true, Run: func(t *T) {
+			p := newPeer(t, t.Transport, t.Version)
+			defer p.Shutdown()
+			p.onConn = func(pc *peerConn) {
+				if pc.N == 1 {
+					pc.Stall(true)
+				}
+			}
+			p.onFrame = func(pc *peerConn, f frameIn) {
+				if stdReply(pc, f) {
+					return
+				}
+				if f.Typ == 1 {
+					pc.Send(respFrame(f, 0, f.Body))
+				}
+			}
+			cfg := defaultCfg()
+			if viaKeepalive {
+				cfg.KeepaliveU, cfg.KeepaliveTimeoutU = 2, 4
+			}
+			cl, err := t.NewClient(p, cfg)
+			if err != nil {
+				t.Check("setup", false, "dial: %v", err)
+				return
+			}
+			first := p.FirstConn()
+			t.Do(cl, "unanswered", 100, 3)
+			if viaKeepalive {
+				// the silent peer is detected and replaced by connection 2, which answers
+				for i := 0; i < 200 && p.Dials() < 2; i++ {
+					time.Sleep(t.U(1) / 2)
+				}
+				t.Check("setup", p.Dials() >= 2, "keepalive did not replace the unresponsive connection")
+				t.Sleep(4)
+				st := first.kernelState()
+				t.Check("sockets_released", st != "01", "the replaced connection's socket is still ESTABLISHED at the unresponsive peer (kernel state %q) after the recovery", st)
+			}
+			done := make(chan struct{})
+			go func() { cl.Close(nil); close(done) }()
+			select {
+			case <-done:
+			case <-time.After(t.U(60)):
+				t.Check("close_prompt", false, "Close did not return within 60 units on an unresponsive peer")
+			}
+			t.Sleep(6)
+			st := first.kernelState()
+			t.Check("sockets_released", st != "01", "the socket of the unresponsive connection is still ESTABLISHED at the peer (kernel state %q) after Close", st)
+			n, where := libGoroutines()
+			t.Check("client_threads_exit", n == 0, "%d library goroutine(s) alive after Close on an unresponsive peer: %s", n, where)
+		}})
+	}
+
+	// C08: the resume request has its own timeout (the auth timeout), independent of the dial timeout: a peer that answers it later than
+	// the dial timeout but well within the auth timeout is recovered in ONE attempt
+	register(&scenario{Name: "c08/slow-resume-answer", Props: []string{"C08"}, Quick: true, Run: func(t *T) {
+		p := newPeer(t, t.Transport, t.Version)
+		defer p.Shutdown()
+		p.onFrame = func(pc *peerConn, f frameIn) {
+			if f.WsKind != "" && f.WsKind != "binary" {
+				stdReply(pc, f)
+				return
+			}
+			if f.Typ != 1 {
+				return
+			}
+			switch f.Cmd {
+			case 2:
+				pc.Send(respFrame(f, 0, authBody("session-A", time.Hour)))
+			case 3:
+				go func() { time.Sleep(t.U(8)); pc.Send(respFrame(f, 0, authBody("session-B", time.Hour))) }()
+			case 100:
+				pc.Send(respFrame(f, 0, f.Body))
+			case 199:
+				pc.Drop()
+			}
+		}
+		cfg := defaultCfg()
+		cfg.Token = true
+		cfg.DialTimeoutU, cfg.AuthTimeoutU = 3, 30
+		cl, err := t.NewClient(p, cfg)
+		if err != nil {
+			t.Check("setup", false, "dial: %v", err)
+			return
+		}
+		defer cl.Close(nil)
+		t.DoAsync(cl, "loss", 199, 3)
+		t.Sleep(30)
+		t.Join()
+		t.Check("one_recovery_per_loss", p.Dials() == 2, "a resume answered after 8 units (dial timeout 3, auth timeout 30) took %d connections instead of 2: the resume request did not get the auth timeout", p.Dials())
+		t.Check("after_cb_only_on_success", atomic.LoadInt32(&t.afterRec) == 1, "after-reconnect callback ran %d times", atomic.LoadInt32(&t.afterRec))
+		r := t.Do(cl, "after", 100, 6)
+		t.Check("serves_again", r.Err == nil, "request after the recovery: %v", r.Err)
+	}})
+}
+
+func init() {
+	// C15: detection latency at the boundary configuration timeout == interval. The peer answers three heartbeats (each after half an
+	// interval, so that the healthy phase tolerates scheduling jitter) and then goes silent: the connection must be recycled within
+	// interval + timeout (+ slack) of the last answer.
+	register(&scenario{Name: "c15/stops-after-3-timeout-eq-interval", Props: []string{"C15"}, Quick: true, Run: func(t *T) {
+		p := newPeer(t, t.Transport, t.Version)
+		defer p.Shutdown()
+		var mu sync.Mutex
+		n := 0
+		var lastAnswered, secondConn time.Time
+		p.onConn = func(pc *peerConn) {
+			if pc.N == 2 {
+				mu.Lock()
+				secondConn = time.Now()
+				mu.Unlock()
+			}
+		}
+		p.onFrame = func(pc *peerConn, f frameIn) {
+			isPing := (f.WsKind == "ping") || (f.WsKind == "" || f.WsKind == "binary") && f.Typ == 1 && f.Cmd == 1
+			if isPing && pc.N == 1 {
+				mu.Lock()
+				n++
+				k := n
+				mu.Unlock()
+				if k <= 3 {
+					go func() {
+						time.Sleep(t.U(2))
+						mu.Lock()
+						lastAnswered = time.Now()
+						mu.Unlock()
+						if pc.ws != nil {
+							pc.WsControl(10, f.Body)
+						} else {
+							pc.Send(respFrame(f, 0, f.Body))
+						}
+					}()
+				}
+				return
+			}
+			stdReply(pc, f)
+		}
+		cfg := defaultCfg()
+		cfg.KeepaliveU, cfg.KeepaliveTimeoutU = 4, 4
+		cl, err := t.NewClient(p, cfg)
+		if err != nil {
+			t.Check("setup", false, "dial: %v", err)
+			return
+		}
+		defer cl.Close(nil)
+		for i := 0; i < 400; i++ {
+			time.Sleep(t.U(1) / 4)
+			mu.Lock()
+			done := !secondConn.IsZero()
+			mu.Unlock()
+			if done {
+				break
+			}
+		}
+		mu.Lock()
+		defer mu.Unlock()
+		if secondConn.IsZero() {
+			t.Check("detects_dead", false, "the peer stopped answering after 3 heartbeats (interval 4, timeout 4) and the connection was not recycled within 100 units")
+			return
+		}
+		if n < 3 || lastAnswered.IsZero() {
+			t.Check("setup", false, "the connection was recycled before the peer had answered three heartbeats")
+			return
+		}
+		d := secondConn.Sub(lastAnswered)
+		t.Check("timing:detects_dead", d <= t.U(9), "interval 4 units, timeout 4 units: the silent peer was detected %.1f units after its last answer (bound: interval + timeout = 8, + 1 slack)", float64(d)/float64(t.U(1)))
+	}})
+
+	// C15 / C08: a keepalive verdict about the OLD connection must not recycle the NEW one. The keepalive goroutine is parked right after
+	// its check declared connection 1 dead; meanwhile connection 1 is lost the ordinary way and the client recovers onto a healthy
+	// connection 2; then the keepalive goroutine continues with its stale verdict.
+	register(&scenario{Name: "c15/stale-keepalive-verdict", Props: []string{"C15", "C08"}, Quick: true, Run: func(t *T) {
+		p := newPeer(t, t.Transport, t.Version)
+		defer p.Shutdown()
+		p.onFrame = func(pc *peerConn, f frameIn) {
+			isPing := (f.WsKind == "ping") || (f.WsKind == "" || f.WsKind == "binary") && f.Typ == 1 && f.Cmd == 1
+			if isPing && pc.N == 1 {
+				return // connection 1 never answers heartbeats
+			}
+			if stdReply(pc, f) {
+				return
+			}
+			if f.Typ == 1 && f.Cmd >= 100 {
+				pc.Send(respFrame(f, 0, f.Body))
+			}
+		}
+		cfg := defaultCfg()
+		cfg.KeepaliveU, cfg.KeepaliveTimeoutU = 2, 4
+		verifhook.Hold("keepalive:timeout")
+		cl, err := t.NewClient(p, cfg)
+		if err != nil {
+			t.Check("setup", false, "dial: %v", err)
+			return
+		}
+		defer cl.Close(nil)
+		if !verifhook.WaitParked("keepalive:timeout", 1, t.U(60)) {
+			t.Check("detects_dead", false, "a connection that never answers heartbeats was not declared dead within 60 units")
+			return
+		}
+		// the ordinary loss of connection 1 and its recovery happen while the keepalive verdict is pending
+		p.FirstConn().Drop()
+		for i := 0; i < 300 && p.Dials() < 2; i++ {
+			time.Sleep(t.U(1) / 5)
+		}
+		if p.Dials() < 2 {
+			t.Check("setup", false, "the client did not recover from the loss of connection 1 while the keepalive goroutine was parked")
+			return
+		}
+		t.Sleep(3)
+		r := t.Do(cl, "on-conn-2", 100, 6)
+		t.Check("setup", r.Err == nil, "request on the recovered connection: %v", r.Err)
+		verifhook.Release("keepalive:timeout") // the stale verdict continues now
+		t.Sleep(16)
+		t.Check("no_false_positive", p.Dials() == 2, "a keepalive verdict about the lost connection 1 recycled the healthy connection 2 (%d connections in total)", p.Dials())
+		t.Check("one_recovery_per_loss", atomic.LoadInt32(&t.afterRec) == 1, "one loss, %d after-reconnect callbacks", atomic.LoadInt32(&t.afterRec))
+	}})
+}
+
+func init() {
+	// C07 / C05: the peer answers request A twice (both answers in one write, so the duplicate is dispatched while A's caller is still
+	// between taking its answer and unregistering); the NEXT call B is answered once, at once. B must return B's answer: neither a
+	// left-over of A nor a timeout.
+	register(&scenario{Name: "c07/duplicate-then-next-call", Props: []string{"C07", "C05"}, Quick: true, Run: func(t *T) {
+		p := newPeer(t, t.Transport, t.Version)
+		defer p.Shutdown()
+		p.onFrame = func(pc *peerConn, f frameIn) {
+			if stdReply(pc, f) {
+				return
+			}
+			switch {
+			case f.Typ == 1 && f.Cmd == 100:
+				one := specEncode(p.version, respFrame(f, 0, f.Body))
+				if pc.ws != nil {
+					pc.SendRaw(one)
+					pc.SendRaw(one)
+				} else {
+					pc.SendRaw(append(append([]byte{}, one...), one...))
+				}
+			case f.Typ == 1 && f.Cmd == 101:
+				pc.Send(respFrame(f, 0, f.Body))
+			}
+		}
+		cl, err := t.NewClient(p, defaultCfg())
+		if err != nil {
+			t.Check("setup", false, "dial: %v", err)
+			return
+		}
+		defer cl.Close(nil)
+		bad, lost := 0, 0
+		first := ""
+		for i := 0; i < 40; i++ {
+			ta, tb := int32(1000+i), int32(5000+i)
+			ra, ea := doTagged(t, cl, 100, ta, 20)
+			rb, eb := doTagged(t, cl, 101, tb, 20)
+			if ea != nil || tagOfBody(ra.Body) != ta {
+				bad++
+			}
+			switch {
+			case eb != nil:
+				lost++
+				if first == "" {
+					first = fmt.Sprintf("pair %d: call B failed: %v", i, eb)
+				}
+			case tagOfBody(rb.Body) != tb:
+				bad++
+				if first == "" {
+					first = fmt.Sprintf("pair %d: call B (tag %d) returned the response with tag %d", i, tb, tagOfBody(rb.Body))
+				}
+			}
+		}
+		t.Check("do_returns_own_id", bad == 0, "%d of 80 calls returned a response that was not theirs (%s)", bad, first)
+		t.Check("no_lost_wakeup", lost == 0 && bad == 0, "after a request that was answered twice, %d of 40 following calls lost their own timely answer and %d got a foreign one (%s)", lost, bad, first)
+	}})
+}
+
+func init() {
+	// C20: the client's own keepalive with a gzip threshold below the size of a heartbeat body (everything the codec may compress is
+	// compressed). The application-level view — the pong callbacks with the ids of the heartbeats sent — must be the same on both transports.
+	register(&scenario{Name: "c20/keepalive-gzip-everything", Props: []string{"C20", "C15"}, Quick: true, Run: func(t *T) {
+		p := newPeer(t, t.Transport, t.Version)
+		defer p.Shutdown()
+		p.onFrame = func(pc *peerConn, f frameIn) {
+			if f.WsKind == "ping" {
+				pc.WsControl(10, f.Body)
+				return
+			}
+			if f.WsKind != "" && f.WsKind != "binary" {
+				return
+			}
+			if f.Typ == 1 && f.Cmd == 1 {
+				// answer with the heartbeat body as the peer understood it (decompressed when the frame was flagged gzip)
+				body := f.Body
+				if f.Gzip == 1 {
+					if k, pl := stdRead(body); k == "ok" {
+						body = pl
+					}
+				}
+				pc.Send(respFrame(f, 0, body))
+				return
+			}
+			stdReply(pc, f)
+		}
+		cfg := defaultCfg()
+		cfg.KeepaliveU, cfg.KeepaliveTimeoutU = 2, 8
+		cfg.MinGzip = 1
+		cl, err := t.NewClient(p, cfg)
+		if err != nil {
+			t.Check("setup", false, "dial: %v", err)
+			return
+		}
+		t.Sleep(11)
+		cl.Close(nil)
+		var pongs []string
+		for _, e := range t.events {
+			if e.Kind == "cb.pong" && len(pongs) < 3 {
+				var hb control.Heartbeat
+				raw, _ := hex.DecodeString(fmt.Sprint(e.F["body"]))
+				id := "undecodable"
+				if pb.Unmarshal(raw, &hb) == nil && hb.HeartbeatId != nil {
+					id = fmt.Sprint(hb.GetHeartbeatId())
+				}
+				pongs = append(pongs, fmt.Sprintf("rid=%v body-id=%s", e.F["rid"], id))
+			}
+		}
+		t.Check("heartbeat_shape", len(pongs) == 3, "only %d pong callbacks in 5 keepalive intervals", len(pongs))
+		t.ev("c20.trace", "canon", "pongs "+strings.Join(pongs, " , "), "connections", p.Dials())
+	}})
 }
